@@ -483,6 +483,8 @@ pub const KINDS: &[Kind] = &[
     Kind { name: "unicode-range-wild", pieces: &["U", "+4", "?", "?"], micro: Some(Micro::UnicodeRange) },
     Kind { name: "escaped-ident", pieces: &["\\31 a"], micro: None },
     Kind { name: "escaped-dot", pieces: &["a\\.b"], micro: None },
+    // an identifier that the printer writes with an escape at its end (the blank that ends the escape belongs to the name)
+    Kind { name: "escaped-ident-ends-in-escape", pieces: &["\\31 "], micro: None },
     Kind { name: "paren-block", pieces: &["(", "a", ")"], micro: None },
     Kind { name: "square-block", pieces: &["[", "a", "]"], micro: None },
     Kind { name: "curly-block", pieces: &["{", "a", "}"], micro: None },
